@@ -25,7 +25,7 @@ RULE = ("scenario = history of <=10 client steps {send, recv, ping, close(status
         "thread calls close() exactly when the reading thread is at its k-th traced line inside the library, for every k of "
         "three reference runs (every 2nd in quick).  non-trivial = the history contains a close, a loss or an out-of-range status; distinct = "
         "(step kinds, peer reaction, loss kind, status classes)")
-ASSUMPTIONS = ["a user's explicit send_close is not 'own initiative' and is counted separately",
+ASSUMPTIONS = ["a user's explicit send_close is not 'own initiative' and is counted separately (two explicit calls are the caller's business); after it neither close() nor the automatic reply may start another close frame",
                "after the server's close frame was received, what send/recv/ping do before close() is not pinned down",
                "content of the automatic close reply is not pinned down (only its existence and uniqueness)"]
 STATUSES = (-1, 0, 999, 1000, 1001, 3000, 4999, 65535, 65536, 100000)
@@ -525,6 +525,7 @@ def run(sc, choices=None):
     w, peers = std_world(seed=int(sc.get("seed", 1)), peer_cfg=peer_cfg, sock=sockcfg, step_cap=300_000)
     state = "OPEN"  # OPEN | CLOSE_SENT | PEER_CLOSED | CLOSED
     own_close_frames = 0
+    explicit_close_started = False
     sigsteps = []
     with w:
         ws = w.ws
@@ -585,6 +586,15 @@ def run(sc, choices=None):
             ename = exc_name(exc) if exc is not None else None
             sigsteps.append((op, state, ename, len(closes)))
             ctx = f"{op}/{state}"
+            # once the caller's own send_close() has put (part of) a close frame on the wire, neither close() nor the
+            # automatic reply may start another one
+            if op in ("close", "recv") and explicit_close_started and (closes or partial_close):
+                res.violate("second_close_frame", f"{op}/after_send_close",
+                            f"step {i} {op}: a close frame was started although send_close() had already put one on the wire "
+                            f"(complete or cut off by the transport)")
+                break
+            if op == "send_close" and (closes or partial_close):
+                explicit_close_started = True
             if op in ("close", "send_close"):
                 status = int(st["status"])
                 in_range = 0 <= status <= 65535
